@@ -23,6 +23,7 @@ import (
 	"github.com/echovault/sugardb/internal/verif"
 	"log"
 	"sync"
+	"sync/atomic"
 	"time"
 
 	"github.com/hashicorp/memberlist"
@@ -52,6 +53,7 @@ type MemberList struct {
 	noOfNodesMut   sync.RWMutex
 	noOfNodes      int
 	memberList     *memberlist.Memberlist
+	forwardSeq     atomic.Uint64 // number of data mutations this node has forwarded
 }
 
 func NewMemberList(opts Opts) *MemberList {
@@ -168,10 +170,13 @@ func (m *MemberList) ForwardDataMutation(ctx context.Context, cmd []byte) {
 	connId, _ := ctx.Value(internal.ContextConnID("ConnectionID")).(string)
 	database, _ := ctx.Value("Database").(int)
 	protocol, _ := ctx.Value("Protocol").(int)
+	// The hash identifies this submission, not its content: a client may well send the same
+	// command twice (INCR, RPUSH ...), and the second one must not replace the first in the queue.
+	submission := fmt.Sprintf("%s/%d/", m.options.Config.ServerID, m.forwardSeq.Add(1))
 	m.broadcastQueue.QueueBroadcast(&BroadcastMessage{
 		Action:      "MutateData",
 		Content:     cmd,
-		ContentHash: md5.Sum(cmd),
+		ContentHash: md5.Sum(append([]byte(submission), cmd...)),
 		ConnId:      connId,
 		Database:    database,
 		Protocol:    protocol,
